@@ -561,7 +561,9 @@ func (b *Broker) SetSuccessThreshold(t EventType, successThreshold int) error {
 		b.graphs[t] = g
 	}
 
+	g.thresholdLock.Lock()
 	g.successThreshold = successThreshold
+	g.thresholdLock.Unlock()
 	return nil
 }
 
@@ -585,7 +587,9 @@ func (b *Broker) SetSuccessThresholdSinks(t EventType, successThresholdSinks int
 		b.graphs[t] = g
 	}
 
+	g.thresholdLock.Lock()
 	g.successThresholdSinks = successThresholdSinks
+	g.thresholdLock.Unlock()
 	return nil
 }
 
